@@ -861,6 +861,14 @@ C09_KINDS = ["h264", "h264_avc", "h265", "h265_donl", "vp8", "vp9", "av1", "av1_
 def rand_c09(seed, tier, cases=None):
     rng = random.Random(seed * 7919 + 9)
     out = []
+    # the enumerated payloader-output histories (with their edits) again with every receiver in zero-allocation mode
+    for c in (cases or []):
+        if c.get("src") == "feed" and c.get("kind") in ("vp8", "vp9", "h264", "h264_avc", "h265", "h265_donl", "av1"):
+            z = dict(c)
+            z["zeroalloc"] = True
+            z["class"] = c["class"] + "_zero_allocation"
+            z.pop("case", None)
+            out.append(z)
     for _ in range(8000 if tier == "quick" else 100000 * TH):
         kind = rng.choice(C09_KINDS)
         items = []
